@@ -58,7 +58,18 @@ var c07RawScalars = []string{"1", "0", "-3", "1.5", "true", "null", "1e3", "0x10
 	"0x1F", "0b11", "+1", "1.", "1.0", "1.50", "-0", "0.0", "1E3", "1.5e+3", "077", "08", "Null", "TRUE", "!!str 5",
 	"!!binary aGVsbG8=", "!!float 1", "'single'", "[1, 2]", "{a: 1}", "<<", "=", "1,000", "0x", "1e", "--", ".inf", ".nan", "1", "2", "3"}
 
+// string values whose trailing newlines matter: emitted as keep-chomped block scalars (|+), they put blank lines
+// right before the next "---" when they are the last scalar of a non-last output document, which is where the
+// document splitter of kio.ByteReader has to give back the newline it consumed
+var c07TrailNL = []string{"echo hello\n\n", "text\n\n\n", "text\n", "\n", "\n\n", "\n\n\n", "a\nb\n\n", "x\n\n",
+	"two\nlines\n\n\n", " \n\n", "ends: colon\n\n", "#hash\n\n"}
+
+func (g *c07Bgen) trailNL() string { return g.rng.Pick(c07TrailNL) }
+
 func (g *c07Bgen) scalar() string {
+	if g.rng.Chance(8) {
+		return g.trailNL()
+	}
 	if g.rng.Chance(45) {
 		return g.rng.Pick([]string{"v", "a", "b", "hello", "1", "x"})
 	}
@@ -110,7 +121,29 @@ func c07Workload(g *c07Bgen, name string) string {
 		"\n    spec:\n" + c07PodSpec(g, "      ")
 }
 
+// lastScalarBlock: a mapping under key whose alphabetically last entry carries a value with trailing newlines
+func (g *c07Bgen) lastScalarBlock(key string) string {
+	var b strings.Builder
+	b.WriteString(key + ":\n")
+	if g.rng.Chance(60) {
+		fmt.Fprintf(&b, "  a: %s\n", c07Yq(g.scalar()))
+	}
+	v := g.trailNL()
+	if g.rng.Chance(15) {
+		v = g.scalar()
+	}
+	fmt.Fprintf(&b, "  zz-last: %s\n", c07Yq(v))
+	return b.String()
+}
+
 var c07DocKinds = []c07Kdoc{
+	// Secret without `type`: stringData is the last top-level key of the emitted document, and Secrets sort early
+	{"v1", "Secret", func(g *c07Bgen, n string) string { return g.lastScalarBlock("stringData") }, false},
+	{"v1", "Secret", func(g *c07Bgen, n string) string { return g.lastScalarBlock("stringData") }, false},
+	// custom kind: spec is the last top-level key
+	{"example.com/v1", "Widget", func(g *c07Bgen, n string) string { return g.lastScalarBlock("spec") }, false},
+	// ServiceAccount-like early-sorting kind with a free-form last key
+	{"v1", "ServiceAccount", func(g *c07Bgen, n string) string { return g.lastScalarBlock("zextra") }, false},
 	{"v1", "ConfigMap", func(g *c07Bgen, n string) string { return g.dataBlock("data") }, false},
 	{"v1", "ConfigMap", func(g *c07Bgen, n string) string { return g.dataBlock("data") }, false},
 	{"v1", "Secret", func(g *c07Bgen, n string) string { return "type: Opaque\n" + g.dataBlock("stringData") }, false},
@@ -660,6 +693,33 @@ func checkBuild07(r *Run, t tree07, verbose bool) string {
 			b, e2 := c07CanonJSON(got)
 			if e1 != nil || e2 != nil || !reflect.DeepEqual(a, b) {
 				report("reparse", "C07/reparse/differs", fmt.Sprintf("document %d parses back to a different object:\n object: %s\n parsed: %s", i, want, got))
+			}
+		}
+	}
+	// --- O4b the same through kustomize's own reader (kio.ByteReader via the resmap factory): the stream is split at
+	// the "---" lines and every document must come back as the object that was emitted
+	if len(rs) > 0 {
+		var back resmap.ResMap
+		clsB, msgB := protect(func() error {
+			var e error
+			back, e = c07RmF.NewResMapFromBytes(out)
+			return e
+		})
+		if clsB != ClsOk {
+			if !dupLocal {
+				report("reparse", "C07/reparse/reader-"+strings.ToLower(strings.TrimPrefix(clsB, "C")), "reading the emitted stream back failed: "+c07FirstLine(msgB))
+			}
+		} else if back.Size() != len(rs) {
+			report("reparse", "C07/reparse/reader-doc-count", fmt.Sprintf("%d resources emitted, %d read back", len(rs), back.Size()))
+		} else {
+			for i, x := range rs {
+				want, err1 := x.MarshalJSON()
+				got, err2 := back.Resources()[i].MarshalJSON()
+				a, e1 := c07CanonJSON(want)
+				b, e2 := c07CanonJSON(got)
+				if err1 != nil || err2 != nil || e1 != nil || e2 != nil || !reflect.DeepEqual(a, b) {
+					report("reparse", "C07/reparse/reader-differs", fmt.Sprintf("document %d read back by the kustomize reader is a different object:\n emitted: %s\n read:    %s", i, want, got))
+				}
 			}
 		}
 	}
